@@ -162,6 +162,10 @@ Theorem every_written_line_is_literals_and_separators : forall sty, resolvable s
   forall c simple ind x ls, render_lines c simple ind x = Ok ls -> Forall (fun wl => good_line sty (snd wl)) ls.
 Proof. exact render_lines_good. Qed.
 Print Assumptions every_written_line_is_literals_and_separators.
+(* "error" is one of pastel's own styles: every ANSI or plain formatter clikit builds resolves it *)
+Theorem every_formatter_resolves_error : forall k set f, new_formatter k set = Ok f -> k <> FNull -> resolvable (f_styles f) st_error.
+Proof. exact new_formatter_error. Qed.
+Print Assumptions every_formatter_resolves_error.
 (* Output's indentation (blanks in front of every non-empty line of the string) maps pieces to pieces *)
 Theorem indentation_keeps_a_line_good : forall sty n ps, pieces_ok sty ps ->
   indent_text n (line_str ps) = line_str (ind_pieces n true ps) /\ pieces_ok sty (ind_pieces n true ps) /\
